@@ -58,6 +58,16 @@ func NewGen(r *Rng, w *World, p *Profile) *Gen {
 	tr := r.Sub("templates")
 	for t := 0; t < 4; t++ {
 		var ks []VSpec
+		if t == 3 {
+			// a wide record: 7..12 short, distinct field names, so that the digests of the shared key list no longer
+			// fit the encoder's 64-byte scratch area (8 digests) in some runs and exactly fill it in others
+			nk := 7 + tr.Intn(6)
+			for j := 0; j < nk; j++ {
+				ks = append(ks, VSpec{S: &[2]int{5000 + t*10 + j, tr.Range(5, 6)}})
+			}
+			g.templates = append(g.templates, ks)
+			continue
+		}
 		for j := 0; j < 1+tr.Intn(5); j++ {
 			ks = append(ks, VSpec{S: &[2]int{5000 + t*10 + j, tr.Range(2, 12)}})
 		}
